@@ -23,20 +23,22 @@ def group_ungroup(chk, rule):
         x = input_tensor(shape)
         kept = 0 if axis == 0 else len(shape) - 1
         try:
-            grp = la.Interp(g, [x, axis, gs], {}).run()
-            if grp is None or not hasattr(grp, "dims"):
-                chk.unknown(rule, site, f"group ({what}) did not produce a tensor")
-                continue
-            sizes = grp.sizes()
-            gdim = 1 if axis == 0 else 0
-            ok_shape = len(sizes) == 2 and sizes[gdim] == gs
-            chk.require(rule, site, ok_shape, f"group(axis={axis}; {what}): shape {shape} -> {sizes} with the group size on dim {gdim}", "group", f"group shape axis {axis}", f"grouped quantization along axis {axis}: scales do not line up with groups")
-            mixes = any(at.axis == kept for at in grp.dims[gdim])
-            chk.require(rule, site, not mixes, f"group(axis={axis}; {what}): the elements of one group all come from a single index of the kept axis", "group", f"group locality axis {axis}", f"grouped quantization along axis {axis}: a group mixes several output channels, so one scale serves values of different rows")
-            und = la.Interp(ug, [grp, axis, tuple(shape)], {}).run()
-            same = und is not None and hasattr(und, "key") and und.key() == x.key()
-            chk.require(rule, f"{mu.rel}:{ug.lineno}", same, f"ungroup(group(x), axis={axis}) == x as a layout ({what}, symbolic sizes)", "ungroup", f"ungroup inverts group axis {axis}", f"grouped weights along axis {axis}: dequantized values land at permuted positions")
-            n += 1
+            for ch_, grp in la.run_all(lambda ch: la.Interp(g, [x, axis, gs], {}, choices=ch)):
+                # (a question about strides - `base.is_contiguous()` - has no answer in a layout: each answer is an instance, labelled here)
+                lab = what + (f" [is_contiguous answers {ch_}]" if ch_ else "")
+                if grp is None or not hasattr(grp, "dims"):
+                    chk.unknown(rule, site, f"group ({lab}) did not produce a tensor")
+                    continue
+                sizes = grp.sizes()
+                gdim = 1 if axis == 0 else 0
+                ok_shape = len(sizes) == 2 and sizes[gdim] == gs
+                chk.require(rule, site, ok_shape, f"group(axis={axis}; {lab}): shape {shape} -> {sizes} with the group size on dim {gdim}", "group", f"group shape axis {axis}", f"grouped quantization along axis {axis}: scales are evaluated over the wrong dimension")
+                mixes = any(at.axis == kept for at in grp.dims[gdim])
+                chk.require(rule, site, not mixes, f"group(axis={axis}; {lab}): the elements of one group all come from a single index of the kept axis", "group", f"group locality axis {axis}", f"grouped quantization along axis {axis}: a group mixes two rows / columns")
+                und = la.Interp(ug, [grp, axis, tuple(shape)], {}).run()
+                same = und is not None and hasattr(und, "key") and und.key() == x.key()
+                chk.require(rule, f"{mu.rel}:{ug.lineno}", same, f"ungroup(group(x), axis={axis}) == x as a layout ({lab}, symbolic sizes)", "ungroup", f"ungroup inverts group axis {axis}", f"grouped tensors along axis {axis}: the dequantized tensor is a permutation of the original")
+                n += 1
         except LayoutError as e:
             chk.bad(rule, site, "group/ungroup", f"layout error axis {axis}", f"group/ungroup ({what}): {e}", f"any admissible grouped shape along axis {axis}")
         except la.Unknown as e:
